@@ -21,7 +21,7 @@ RULE = ("cases = norb 3-4 x sector (open and closed shell) x CI vector (random /
         "list order x reference choice x max_excitation; file cases write random states in the Dice binary format; driver cases run the "
         "complete driver with an exact trial over seeds and walker types; non-trivial = list with >= 3 determinants and a reference different "
         "from the aufbau determinant in at least part of the cases (counted)")
-MIN_NONTRIVIAL = {"quick": 20, "thorough": 150}
+MIN_NONTRIVIAL = {"quick": 20, "thorough": 95}
 TIMEOUT = {"quick": 3600, "thorough": 14400}
 ASSUMPTIONS = ["finite-difference local energy (eps = 1e-4): tolerance 1e-5 S", "driver gathers block energies in float32: tolerance 2e-5 S",
                "get_fci_state is called with tol = 1e-12 so that the list is the full eigenvector"]
